@@ -1,5 +1,9 @@
 (* Model of the operator functions behind C39:
-   pkg/operator/snapshot.go: BuildClusterMetadata, buildReplicaIDs;
+   pkg/operator/snapshot.go: BuildClusterMetadata, buildReplicaIDs, mergeSnapshots and the
+   merge-then-put of PublishMetadataSnapshot - with reassignMissingBrokers as in
+   fixes/C39-merge-reassign-missing-brokers.patch ([merge_orig] keeps the unfixed merge);
+   the broker-side changes of the stored snapshot between two publishes are modelled
+   after pkg/metadata/store.go InMemoryStore.CreatePartitions / CreateTopic / DeleteTopic;
    pkg/operator/cluster_controller.go: reconcileBrokerDeployment (StatefulSet name,
    ServiceName, replica count), brokerHeadlessServiceName, brokerContainer's
    KAFSCALE_BROKER_HOST rule;
@@ -27,7 +31,7 @@ Record topic := mkTopic { t_name : bytes; t_parts : Z }.
 
 Record broker := mkBroker { b_id : Z; b_host : bytes; b_port : Z }.
 Record part := mkPart { p_id : Z; p_leader : Z; p_replicas : list Z; p_isr : list Z }.
-Record mtopic := mkMTopic { mt_name : bytes; mt_parts : list part }.
+Record mtopic := mkMTopic { mt_name : bytes; mt_err : Z (* ErrorCode *); mt_parts : list part }.
 Record meta := mkMeta {
   m_brokers : list broker; m_controller : Z; m_topics : list mtopic;
   m_cname : option bytes; m_cid : option bytes }.
@@ -71,7 +75,7 @@ Definition build_meta (sp : spec) (topics : list topic) : outcome :=
   if existsb (fun t => t_parts t <? 0) topics then Panic else
   Done (mkMeta (map (fun i => mkBroker i (meta_host sp i) (meta_port sp)) (seqZ r))
                0
-               (map (fun t => mkMTopic (t_name t) (build_parts ids (t_parts t))) topics)
+               (map (fun t => mkMTopic (t_name t) 0 (build_parts ids (t_parts t))) topics)
                (opt_str (sp_name sp)) (opt_str (sp_uid sp))).
 
 (* ---------- the deployed side: StatefulSet rendered by reconcileBrokerDeployment ---------- *)
@@ -97,6 +101,138 @@ Definition pod_dns (s : sts) (i : Z) : bytes :=
 Definition admissible (sp : spec) : Prop :=
   exists r, sp_replicas sp = Some r /\ 1 <= r <= 2147483647.
 Definition topics_admissible (ts : list topic) : Prop := Forall (fun t => 0 <= t_parts t) ts.
+
+
+(* ---------- the publish path: mergeSnapshots + PublishMetadataSnapshot ---------- *)
+Definition live (ids : list Z) (x : Z) : bool := existsb (Z.eqb x) ids.
+Definition all_live (ids l : list Z) : bool := forallb (live ids) l.
+
+(* reassignMissingBrokers: a leader that is not a listed broker is re-assigned
+   round-robin, a replica / ISR list naming an unlisted broker is re-rendered *)
+Definition reassign_part (ids : list Z) (i : nat) (p : part) : part :=
+  mkPart (p_id p)
+         (if live ids (p_leader p) then p_leader p else nth (Nat.modulo i (length ids)) ids 0)
+         (if all_live ids (p_replicas p) then p_replicas p else ids)
+         (if all_live ids (p_isr p) then p_isr p else ids).
+Fixpoint reassign_from (ids : list Z) (i : nat) (ps : list part) : list part :=
+  match ps with
+  | [] => []
+  | p :: ps' => reassign_part ids i p :: reassign_from ids (S i) ps'
+  end.
+Definition reassign (brokers : list broker) (ps : list part) : list part :=
+  match brokers with [] => ps | _ => reassign_from (map b_id brokers) 0 ps end.
+
+Fixpoint find_idx (name : bytes) (ts : list mtopic) (i : nat) : option nat :=
+  match ts with
+  | [] => None
+  | t :: ts' => if bytes_eqb name (mt_name t) then Some i else find_idx name ts' (S i)
+  end.
+Fixpoint set_parts (idx : nat) (ps : list part) (ts : list mtopic) : list mtopic :=
+  match ts, idx with
+  | [], _ => []
+  | t :: ts', O => mkMTopic (mt_name t) (mt_err t) ps :: ts'
+  | t :: ts', S k => t :: set_parts k ps ts'
+  end.
+Definition parts_at (idx : nat) (ts : list mtopic) : list part :=
+  match nth_error ts idx with Some t => mt_parts t | None => [] end.
+
+(* one iteration of the loop over existing.Topics; [fx] selects the fixed code *)
+Definition merge_step (fx : bool) (brokers : list broker) (next0 : list mtopic) (acc : list mtopic) (t : mtopic) : list mtopic :=
+  let keep := fun ps => if fx then reassign brokers ps else ps in
+  if negb (nonempty (mt_name t)) || negb (mt_err t =? 0) then acc else
+  match find_idx (mt_name t) next0 O with
+  | Some idx =>
+      if (length (parts_at idx acc) <? length (mt_parts t))%nat
+      then set_parts idx (keep (mt_parts t)) acc else acc
+  | None => acc ++ [mkMTopic (mt_name t) (mt_err t) (keep (mt_parts t))]
+  end.
+
+Definition merge_gen (fx : bool) (next existing : meta) : meta :=
+  match m_topics existing with
+  | [] => next
+  | ets => mkMeta (m_brokers next) (m_controller next)
+                  (fold_left (merge_step fx (m_brokers next) (m_topics next)) ets (m_topics next))
+                  (m_cname next) (m_cid next)
+  end.
+Definition merge := merge_gen true.
+Definition merge_orig := merge_gen false.
+
+Definition meta0 : meta := mkMeta [] 0 [] None None.   (* no snapshot stored yet *)
+
+(* InMemoryStore.defaultLeaderID *)
+Definition default_leader (m : meta) : Z :=
+  match m_brokers m with b :: _ => b_id b | [] => m_controller m end.
+Definition new_parts (l : Z) (from to : Z) : list part :=
+  map (fun i => mkPart (from + i) l [l] [l]) (seqZ (to - from)).
+
+Fixpoint grow_in (l : Z) (name : bytes) (n : Z) (ts : list mtopic) : list mtopic :=
+  match ts with
+  | [] => []
+  | t :: ts' =>
+      if bytes_eqb name (mt_name t)
+      then (if n <=? zlen (mt_parts t) then t
+            else mkMTopic (mt_name t) (mt_err t) (mt_parts t ++ new_parts l (zlen (mt_parts t)) n)) :: ts'
+      else t :: grow_in l name n ts'
+  end.
+Fixpoint delete_first (name : bytes) (ts : list mtopic) : list mtopic :=
+  match ts with
+  | [] => []
+  | t :: ts' => if bytes_eqb name (mt_name t) then ts' else t :: delete_first name ts'
+  end.
+Fixpoint set_err (name : bytes) (code : Z) (ts : list mtopic) : list mtopic :=
+  match ts with
+  | [] => []
+  | t :: ts' => if bytes_eqb name (mt_name t) then mkMTopic (mt_name t) code (mt_parts t) :: ts' else t :: set_err name code ts'
+  end.
+Definition with_topics (m : meta) (ts : list mtopic) : meta :=
+  mkMeta (m_brokers m) (m_controller m) ts (m_cname m) (m_cid m).
+
+Inductive pevent :=
+| PPublish (sp : spec) (topics : list topic)       (* operator: render, merge with the stored snapshot, put *)
+| PGrow (name : bytes) (n : Z)                      (* broker: CreatePartitions *)
+| PCreate (name : bytes) (n : Z)                    (* broker: CreateTopic (replication factor 1) *)
+| PDelete (name : bytes)                            (* broker: DeleteTopic *)
+| PSetErr (name : bytes) (code : Z).                (* stored topic entry carries an error code *)
+
+Section Publish.
+Variable trim : bytes -> bytes.
+Variable fx : bool.
+
+Definition pstep (m : meta) (e : pevent) : meta :=
+  match e with
+  | PPublish sp topics =>
+      match build_meta trim sp topics with
+      | Done next => merge_gen fx next m
+      | Panic => m
+      end
+  | PGrow name n => with_topics m (grow_in (default_leader m) name n (m_topics m))
+  | PCreate name n =>
+      if (n <=? 0) || negb (nonempty name) || match m_brokers m with [] => true | _ => false end
+         || match find_idx name (m_topics m) O with Some _ => true | None => false end
+      then m
+      else with_topics m (m_topics m ++ [mkMTopic name 0 (new_parts (default_leader m) 0 n)])
+  | PDelete name => with_topics m (delete_first name (m_topics m))
+  | PSetErr name code => with_topics m (set_err name code (m_topics m))
+  end.
+
+Fixpoint prun (m : meta) (es : list pevent) : meta :=
+  match es with [] => m | e :: es' => prun (pstep m e) es' end.
+End Publish.
+
+(* what C39 demands of a published snapshot *)
+Definition broker_ids (m : meta) : list Z := map b_id (m_brokers m).
+Definition part_ok (ids : list Z) (p : part) : Prop :=
+  In (p_leader p) ids /\ incl (p_replicas p) ids /\ incl (p_isr p) ids.
+Definition dense (ps : list part) : Prop := map p_id ps = seqZ (zlen ps).
+Definition meta_ok (m : meta) : Prop :=
+  forall mt, In mt (m_topics m) -> dense (mt_parts mt) /\ forall p, In p (mt_parts mt) -> part_ok (broker_ids m) p.
+Definition part_okb (ids : list Z) (p : part) : bool :=
+  live ids (p_leader p) && all_live ids (p_replicas p) && all_live ids (p_isr p).
+Definition meta_okb (m : meta) : bool :=
+  forallb (fun mt => list_eqb Z.eqb (map p_id (mt_parts mt)) (seqZ (zlen (mt_parts mt))) &&
+                     forallb (part_okb (broker_ids m)) (mt_parts mt)) (m_topics m).
+Definition pevent_admissible (e : pevent) : Prop :=
+  match e with PPublish sp topics => admissible sp /\ topics_admissible topics | _ => True end.
 
 (* ---------- bucket names ---------- *)
 Definition bucket_prefix : bytes := str "kafscale-etcd".
